@@ -435,7 +435,7 @@ func newAddressScriptHash32FromHash(scriptHash []byte, net *chaincfg.Params) (*A
 // EncodeAddress returns the string encoding of a pay-to-script-hash
 // address.  Part of the Address interface.
 func (a *AddressScriptHash32) EncodeAddress() string {
-	return encodeCashAddress(a.hash[:], a.prefix, AddrTypePayToScriptHash) // TODO TODO
+	return checkEncodeCashAddress(a.hash[:], a.prefix, AddrTypePayToScriptHash)
 }
 
 // ScriptAddress returns the bytes to be included in a txout script to pay
@@ -758,6 +758,13 @@ func checkDecodeCashAddress(input string) (result []byte, prefix string, t Addre
 	data, err = convertBits(data, 5, 8, false)
 	if err != nil {
 		return data, prefix, AddrTypePayToPubKeyHash, err
+	}
+	if len(data) == 33 {
+		// P2SH32: type bits P2SH, size bits 3 (256-bit hash).
+		if data[0] != 0x0b {
+			return data, prefix, AddrTypePayToPubKeyHash, ErrUnknownAddressType
+		}
+		return data[1:33], prefix, AddrTypePayToScriptHash32, nil
 	}
 	if len(data) != 21 {
 		return data, prefix, AddrTypePayToPubKeyHash, errors.New("incorrect data length")
